@@ -1,6 +1,6 @@
 PROP = dict(
     id='C01', level='exploration',
-    pyvc=[],
+    pyvc=['contracts.c01'],
     finite=[],
     bounded='bounded.c01',
     bounded_budget=dict(quick=45, thorough=420),
